@@ -8,7 +8,7 @@ def check(tier, seed):
     return G.generic_check(PID, "proof", tier, seed, coq=True,
         rule="obligations: theorems of coq/properties/C12.v (Lifecycle.v for every schedule: one result per accepted go, infinite/ponder only after stop/ponderhit, go after bestmove accepted, blocked controller released within a bound, output never muted; UciModel.v: isready answered, position = fold of the rules, kept on error, setoption exact); correspondence: lifecycle traces of the real Search accepted by the model (c14-cases) and command sessions of the real UciHandler vs UciModel.run (FEN, config.Settings, readyok count, accepted go count; uci-cases), both evaluated inside Coq; monitor: protocol-valid sessions against a real UciHandler through pipes (as a GUI drives it): per go command exactly one bestmove; infinite/ponder searches answered only after stop/ponderhit; isready answered while searching; stop prompt (<2 s); 'go depth 1 wtime..' followed at once by 'go infinite' (stale timer); position command vs independent replay (FEN and key through the verif hook); setoption true/false changes exactly one line of 'Print Config'; ucinewgame + depth 4 search vs a fresh engine with Use_Hash on and off; a case = one go command",
         streams=[dict(name="lifecycle_model_vs_engine", kind="coqcases", shards=lambda t: 2 if t == "quick" else 16,
-                      args=lambda t, s, sh, path: ["c14-cases", 40 if t == "quick" else 150, s * 1000 + 600 + sh, path], coq_timeout=3000),
+                      args=lambda t, s, sh, path: ["c14-cases", 40 if t == "quick" else 150, s * 1000 + 600 + sh, path], coq_timeout=3000, ok_marker="M = ([],"),
                  dict(name="uci_model_vs_engine", kind="coqcases", shards=lambda t: 2 if t == "quick" else 8,
                       args=lambda t, s, sh, path: ["uci-cases", 50 if t == "quick" else 300, s * 1000 + 650 + sh, path], coq_timeout=3000),
                  dict(name='session_monitor', kind="monitor", shards=lambda t: 4 if t == "quick" else 16,
